@@ -112,8 +112,17 @@ class ComplexAngularCentralGaussian(_ProbabilisticModel):
         eigenvals = eigenvals.real
         # A covariance matrix without a positive eigenvalue (e.g. estimated
         # from all-zero observations) has no directional information. Use the
-        # isotropic matrix instead of dividing by zero later on.
-        degenerate = np.amax(eigenvals, axis=-1, keepdims=True) <= 0
+        # isotropic matrix instead of dividing by zero later on. A largest
+        # eigenvalue (or trace) below the smallest normal number counts as
+        # zero: it can not be normalized to one.
+        degenerate = (
+            np.amax(eigenvals, axis=-1, keepdims=True)
+            < np.finfo(eigenvals.dtype).tiny
+        )
+        if covariance_norm == 'trace':
+            degenerate = degenerate | (
+                cov_trace[..., 0].real < np.finfo(cov_trace.dtype).tiny
+            )
         eigenvals = np.where(
             degenerate,
             1 / eigenvals.shape[-1] if covariance_norm == 'trace' else 1.,
